@@ -6,7 +6,7 @@ from hypothesis import strategies as st
 
 from vf.harness import Check
 from vf.gen import lens as GL
-from vf.gen.build import build
+from vf.gen.build import build, used_optic
 from vf.gen import samples as GS
 from vf.gen.edit import edit_strategy, apply_edit
 
@@ -39,7 +39,8 @@ class C04(Check):
 
     def strategy(self, tier):
         return st.fixed_dictionaries(dict(kind=st.just('spec'), spec=GL.lens_spec('paraxial'),
-                                          edit=edit_strategy(('index', 'radius', 'thickness', 'stop'))))
+                                          edit=edit_strategy(('index', 'radius', 'thickness', 'stop')),
+                                          reuse=st.sampled_from([False, False, False, True])))
 
     def fixed_cases(self, tier):
         return [dict(kind='sample', name=n) for n in GS.sample_names()]
@@ -57,7 +58,11 @@ class C04(Check):
             self.core(case, out, GS.make_sample(case['name']), None)
             return
         spec = case['spec']
-        o = build(spec)
+        if case.get('reuse'):
+            o = build(spec, optic=used_optic())        # an Optic that held another lens and was reset()
+            out.cls('optic_reset_and_reused')
+        else:
+            o = build(spec)
         self.core(case, out, o, spec)
         ed = case.get('edit')
         if ed:
